@@ -70,14 +70,23 @@ def _collect_scopes_from_layers(
     return collected
 
 
-def scopes_for_owner(owner: NixExpression) -> tuple[Scope, ...]:
-    """Build a scope chain from an owner expression and inherited context (internal helper, not a stable public API)."""
-    inherited = _get_context(owner)
+def scopes_for_owner(
+    owner: NixExpression, *, enclosing: tuple[Scope, ...] | None = None
+) -> tuple[Scope, ...]:
+    """Build a scope chain from an owner expression and inherited context (internal helper, not a stable public API).
+
+    A caller that already knows the chain of the constructs enclosing *owner*
+    passes it as *enclosing*; it then replaces the stored context.
+    """
     inherited_scopes: tuple[Scope, ...] = ()
     scopes: list[Scope] = []
-    if inherited is not None:
-        inherited_scopes = inherited.scopes
-        scopes.extend(inherited_scopes)
+    if enclosing is not None:
+        inherited_scopes = tuple(enclosing)
+    else:
+        inherited = _get_context(owner)
+        if inherited is not None:
+            inherited_scopes = inherited.scopes
+    scopes.extend(inherited_scopes)
 
     owner_scopes: list[Scope] = []
     owner_state = getattr(owner, "scope_state", None)
